@@ -1053,6 +1053,13 @@ def _rejected_or_assumed_not(n):
         return []
 
 
+def _f5a_class(o):
+    """acknowledged mode, immediate NAK: the PDU lies beyond the EOF file size and opens a gap"""
+    h = o.self
+    return And_(eq(mode(h), ACK), _fd_size_error(o), o.file_data_pdu.offset > h._params.acked_params.last_end_offset,
+                opt(h._params.remote_cfg, lambda rc: B(rc.immediate_nak_mode), False))
+
+
 def _fd_size_error(o):
     return opt(o.self._params.fp.file_size_eof, lambda s: _fd_end(o) > s, False)
 
@@ -1102,6 +1109,10 @@ C("_handle_fd_pdu", arg_types={**SELF, "file_data_pdu": T.Obj(_FD)}, props=("C05
               Implies_(eq(_fpar(o.self).file_status, FileStatus.FILE_RETAINED), no_fault(n))))(_rejected(n))), ("C14", "C01")),
       Clause("inv.step", lambda o, n, r: Implies_(ne(n.self.states.state, IDLE),
                                                   True if _rejected_or_assumed_not(n) else step_inv(n.self)), ("C10", "C03")),
+      # F5a: in immediate NAK mode a File Data PDU beyond the EOF size that also opens a gap queues a NAK and moves to completion
+      # F5a (known finding, root cause): a NAK is queued and the transaction moves to completion in the same call
+      Clause("C10.no_pdu_queued_when_completion_follows", lambda o, n, r: Implies_(And_(
+          ne(n.self.states.state, IDLE), o.self._pdus_to_be_sent.length() == 0), completion_queue_inv(n.self)), ("C10",), assumable=False),
       Clause("step.unchanged_or_completion", lambda o, n, r: Implies_(ne(n.self.states.state, IDLE), Or_(
           Eq_(n.self.states.step, o.self.states.step), step_is(n.self, STEP.TRANSFER_COMPLETION))), ("C05",)),
       Clause("C06.only_acked_mode_tracks_segments", lambda o, n, r: Implies_(eq(mode(o.self), UNACK), And_(
@@ -1754,10 +1765,14 @@ def mid_condition(h):
     for a busy handler the tracker and step invariants"""
     busy = ne(h.states.state, IDLE)
     return And_(inv_formula(h), Implies_(busy, And_(
-        Not_(isnone(h._params.transaction_id)), Not_(isnone(h._params.remote_cfg)), tracker_inv(h), step_inv(h))))
+        Not_(isnone(h._params.transaction_id)), Not_(isnone(h._params.remote_cfg)), tracker_inv(h), step_inv(h),
+        )))
 
 
-Q0 = z3.Int("queue_len_at_call_entry")
+def completion_queue_inv(h):
+    """D19: when the transaction is about to complete, nothing is queued (otherwise the Finished PDU cannot be queued in the
+    same call and UnretrievedPdusToBeSent is raised although the caller retrieved everything: finding F5a)"""
+    return Implies_(step_is(h, STEP.TRANSFER_COMPLETION, STEP.SENDING_FINISHED_PDU), h._pdus_to_be_sent.length() == 0)
 
 # body of __non_idle_fsm: 0 advancement, 1 holder, 2 receiving FD/EOF, 3 waiting for metadata, 4 check limit,
 # 5 waiting for missing data, 6 transfer completion, 7 sending finished, 8 waiting for finished ack
@@ -1772,10 +1787,7 @@ def _dfsm_contract(label, sl):
           props=("C10", "C16", "C05"), result=None,
           requires=[("MidCondition", lambda o: mid_condition(o.self))] + DEFAULT + [
               ("admitted", lambda o: Implies_(ne(o.self.states.state, IDLE), _d_admitted(o))),
-              # ghost: length of the outbound queue when state_machine() was called; the first statement raises unless it
-              # is zero, so it is zero for every later statement
-              ("queue_at_entry", (lambda o: And_(ne(o.self.states.state, IDLE), o.self._pdus_to_be_sent.length() == Q0)) if first
-               else (lambda o: Q0 == 0))],
+              ] + ([("busy", lambda o: ne(o.self.states.state, IDLE))] if first else []),
           modifies=DFSM_MOD,
           ensures=[
               Clause("mid_condition", lambda o, n, r: mid_condition(n.self), ("C10", "C06", "C03")),
@@ -1785,9 +1797,10 @@ def _dfsm_contract(label, sl):
                   for e in vfs_ops(n) if e.get("path") is not None and e["op"] in ("write_data", "delete_file", "truncate_file", "create_file")]),
                   ("C05",)),
           ],
-          raises=[
-              # C10: "unretrieved PDUs" is only ever raised when PDUs were queued when the call was made
-              RaiseClause("C10.unretrieved_truthful", D.UnretrievedPdusToBeSent, when=lambda o: Q0 > 0, props=("C10",), modifies=DFSM_MOD),
+          raises=([
+              # C10: "unretrieved PDUs" is only raised by the first statement, i.e. for PDUs queued when the call was made
+              RaiseClause("C10.unretrieved_truthful", D.UnretrievedPdusToBeSent, when=lambda o: o.self._pdus_to_be_sent.length() > 0,
+                          iff=True, props=("C10",), modifies=[])] if first else []) + [
               RaiseClause("F5b.tracker_value_error_leaks", ValueError, when=lambda o: o.packet is not None and o.packet.cls is _FD,
                           props=("C10",), modifies=DFSM_MOD),
               RaiseClause("vfs.truncate_race", FileNotFoundError, when=lambda o: o.packet is not None and o.packet.cls is MetadataPdu,
@@ -1847,7 +1860,7 @@ def _dfsm_union():
               ("busy", lambda o: ne(o.self.states.state, IDLE)), ("admitted", _d_admitted)],
           modifies=DFSM_MOD, ensures=[Clause("mid_condition", lambda o, n, r: mid_condition(n.self), ())],
           raises=[
-              # finding F5a: may also be raised for PDUs queued earlier in the same call
+              # finding F5a: in acknowledged mode it may also be raised (by _prepare_finished_pdu) for a NAK queued in this call
               RaiseClause("unretrieved", D.UnretrievedPdusToBeSent, modifies=DFSM_MOD,
                           when=lambda o: Or_(o.self._pdus_to_be_sent.length() > 0, eq(mode(o.self), ACK))),
               RaiseClause("F5b.tracker_value_error_leaks", ValueError, when=lambda o: o.packet is not None and o.packet.cls is _FD,
